@@ -43,6 +43,12 @@ impl Swarm {
 
 /// log-uniform length in 100..~70000, with emphasis on powers of two and their neighbours
 fn long_len(r: &mut Rng) -> usize {
+    // threshold probing: fast paths are gated on powers of two; look just below and up to 160
+    // bytes above each of them
+    if r.chance(1, 3) {
+        let t = 1usize << r.range(7, 16);
+        return (t + r.below(163)).saturating_sub(2);
+    }
     match r.below(4) {
         0 => {
             let p = 1usize << r.range(7, 16);
